@@ -344,6 +344,8 @@ public:
    */
   static size_t pickFromCumSum(const std::vector<double>& w)
   {
+    if (w.empty())
+      throw EmptyVectorException<double>("RandomTools::pickFromCumSum: input vector is empty", &w);
     double prob = RandomTools::giveRandomNumberBetweenZeroAndEntry(1.0);
     size_t pos = 0;
     while (pos < w.size() - 1)
